@@ -1149,6 +1149,16 @@ def generate_blocks(rng: random.Random, index: int, of: int) -> Dict[str, Any]:
     tail = R.harvest_tail()
     takes = {n: tp for n, (_f, tp) in R.harvest().items()}
     ops: List[Dict[str, Any]] = []
+    if (index // len(kinds)) % 2 == 1:
+        # every text a fresh call passes through between its rules, as an earlier call of its own, followed
+        # by the call itself: nothing remembered about a text may cut a later call short half way
+        for v in range(2):
+            x = gen.gen_module(rng, special=True, force=kind, process_dependent=(kind in ("doc", "spell")))
+            opts = {"safe": True} if rng.random() < 0.2 else {}
+            for j in range(10):
+                ops.append(dict({"op": "FMT", "x": "", "x_mid_of": x, "mid_pick": j}, **opts))
+                ops.append(dict({"op": "FMT", "x": x}, **opts))
+        return {"engine": "e2", "knobs": "default", "ops": ops, "keep_going": False}
     for v in range(3):
         x = gen.gen_module(rng, special=True, force=kind, process_dependent=(kind in ("doc", "spell")))
         if v == 2:
